@@ -1,5 +1,6 @@
 import RaptorModel.Driver.Common
 import RaptorModel.Model.Split
+import RaptorModel.Model.RS
 /-! Driver for C13: splittings — totality, halo agreement, the Ruge–Stüben neighbour property, and
 equality of the PMIS / CLJP labels with the round-based model (hence with every partition). -/
 namespace Raptor.Driver.C13
@@ -43,7 +44,25 @@ def checkSeq : Rd Verdict := do
   let feats := ["seq", splitName split] ++ (if S.all List.isEmpty then ["trivial"] else []) ++
                (if labels.contains 1 && labels.contains 0 then ["mixed"] else ["uniform"])
   let _ := n
-  return common s!"C13/seq/{splitName split}" split S w labels feats
+  let v := common s!"C13/seq/{splitName split}" split S w labels feats
+  if split != 0 || v.status != "ok" then return v
+  -- Ruge–Stüben: the bucket machine of the model, visit by visit; its visit order must cover every column (the
+  -- hypothesis of `C13RS.firstPass_total`), and its labels are the implementation's
+  if rows.zipIdx.any (fun (r, i) => r.head? != some i) then return badCase "a strength row without leading diagonal"
+  let fp := RS.firstPass S (List.replicate S.length (-1))
+  if !(List.range S.length).all (fun c => fp.2.contains c) then
+    return diff "C13/seq/rs/certificate/visit_order" s!"visited {repr fp.2} graph={repr S}" feats
+  -- second certificate (hypothesis of `C13RS.splitRS_mixed`): when the graph has an edge, the first column visited has a
+  -- dependent other than itself
+  if S.any (fun r => !r.isEmpty) then
+    match fp.2 with
+    | c0 :: _ => if (dependents S c0).all (· == c0) then
+        return diff "C13/seq/rs/certificate/first_visit" s!"first visited column {c0} has no dependent; graph={repr S}" feats
+    | [] => return diff "C13/seq/rs/certificate/first_visit" "no column visited" feats
+  let m := RS.splitRS S true
+  if m != labels then
+    return diff "C13/seq/rs/labels" s!"impl={showL labels} model={showL m} first pass={showL fp.1.labels} order={repr fp.2} graph={repr S}" feats
+  return ok (feats ++ ["rs_model"] ++ (if fp.1.labels != m then ["second_pass_promotes"] else []))
 
 def checkPar : Rd Verdict := do
   let split ← rdNat; let n ← rdNat; let np ← rdNat; let tap ← rdNat
